@@ -1173,4 +1173,395 @@ theorem endOfQueryCleanup_wired (imp : String) (g : LGraph) (s nm : String) (tab
   rw [hg2]
 
 
+/-! ## 6. `expand_wildcard` without a metadata provider -/
+
+theorem foldl_fixed {α β : Type} (f : β → α → β) (b : β) : ∀ (l : List α), (∀ x ∈ l, f b x = b) → l.foldl f b = b
+  | [], _ => rfl
+  | x :: r, h => by
+    simp only [List.foldl_cons]
+    rw [h x (by simp)]
+    exact foldl_fixed f b r (fun y hy => h y (by simp [hy]))
+
+/-- with no provider and no subquery among the owners of the holder's columns there is nothing a `*` could expand to -/
+theorem expandWildcard_id (p : ProvView) (g : LGraph) (hp : p.truthy = false) (hpay : PayOK g) : expandWildcard p g = g := by
+  unfold expandWildcard
+  split
+  · rfl
+  · apply foldl_fixed
+    intro wn _
+    split
+    · split
+      · apply foldl_fixed
+        intro sw hsw
+        have hsw' : ∃ n, g.payload n = some (.col sw) := by
+          unfold getSourceColumns at hsw
+          obtain ⟨n, _, hn⟩ := List.mem_filterMap.mp hsw
+          refine ⟨n, ?_⟩
+          unfold colOf at hn
+          split at hn
+          · rename_i c hc; cases hn; exact hc
+          · cases hn
+        obtain ⟨n, hn⟩ := hsw'
+        have hc := hpay n sw hn
+        split
+        · rename_i sp hsp
+          have hmem : sp ∈ sw.parents := by
+            unfold Column.parent? at hsp
+            split at hsp
+            · cases hsp; simp_all
+            · cases hsp
+          have hnot := hc sp hmem
+          obtain ⟨d, pr⟩ := sp
+          cases d with
+          | subq _ => cases hnot
+          | table _ _ => simp [hp]
+          | path _ => simp
+        · rfl
+      · rfl
+    · rfl
+
+
+/-! ## 7. the walk on the fragment -/
+
+theorem cdJoins_tab (env : Env) (g : LGraph) (hc : cteObjs g = []) : ∀ js : List Join, js.all joinOK = true →
+    cdJoins env g js = joinTabs env js
+  | [], _ => by simp only [cdJoins, joinTabs]
+  | .mk kd e on us :: r, h => by
+    simp only [List.all_cons, Bool.and_eq_true, joinOK] at h
+    have ih := cdJoins_tab env g hc r h.2
+    cases e with
+    | derived _ _ _ => simp [tabElem] at h
+    | table parts alias ak =>
+      cases on with
+      | none => simp only [cdJoins, joinTabs, elemTabs, datasetOfElem_table env g hc, cdElem, ih, List.append_nil]
+      | some c =>
+        have hon : cdExpr env g c = [] := cdExpr_noSub env g c (by simpa [noSubOpt] using h.1.2)
+        simp only [cdJoins, joinTabs, elemTabs, datasetOfElem_table env g hc, cdElem, hon, ih, List.append_nil]
+
+theorem perFe_tab (env : Env) (g : LGraph) (hc : cteObjs g = []) (fe : FromExpr) (h : feOK fe = true) :
+    perFe env g fe = feTabs env fe := by
+  cases fe with
+  | mk base js =>
+    simp only [feOK, Bool.and_eq_true] at h
+    cases base with
+    | derived _ _ _ => simp [tabElem] at h
+    | table parts alias ak =>
+      simp only [perFe, feTabs, elemTabs, datasetOfElem_table env g hc]
+      cases js with
+      | nil => simp [joinTabs]
+      | cons j r =>
+        simp only [List.isEmpty_cons, Bool.false_eq_true, if_false, cdFromExpr, cdElem, List.nil_append]
+        rw [cdJoins_tab env g hc _ h.2]
+
+theorem tablesOfFrom_tab (env : Env) (g : LGraph) (hc : cteObjs g = []) (frm : List FromExpr) (h : frm.all feOK = true) :
+    tablesOfFrom env g frm = fromTabs env frm := by
+  rw [tablesOfFrom_eq]
+  unfold fromTabs
+  induction frm with
+  | nil => rfl
+  | cons fe r ih =>
+    simp only [List.all_cons, Bool.and_eq_true] at h
+    simp only [List.flatMap_cons, perFe_tab env g hc fe h.1, ih h.2]
+
+theorem fromTabs_isTabRef (env : Env) (frm : List FromExpr) : ∀ o ∈ fromTabs env frm, isTabRef o = true := by
+  have hE : ∀ e, ∀ o ∈ elemTabs env e, isTabRef o = true := by
+    intro e o ho
+    cases e with
+    | derived _ _ _ => simp [elemTabs] at ho
+    | table parts alias ak =>
+      simp only [elemTabs, List.mem_singleton] at ho
+      rw [ho]; rfl
+  have hJ : ∀ js, ∀ o ∈ joinTabs env js, isTabRef o = true := by
+    intro js
+    induction js with
+    | nil => intro o ho; simp [joinTabs] at ho
+    | cons j r ih =>
+      intro o ho
+      cases j with
+      | mk kd e on us =>
+        simp only [joinTabs, List.mem_append] at ho
+        rcases ho with ho | ho
+        · exact hE e o ho
+        · exact ih o ho
+  intro o ho
+  unfold fromTabs at ho
+  obtain ⟨fe, _, hfe⟩ := List.mem_flatMap.mp ho
+  cases fe with
+  | mk base js =>
+    simp only [feTabs, List.mem_append] at hfe
+    rcases hfe with h | h
+    · exact hE base o h
+    · exact hJ js o h
+
+theorem cjJoins_tab (env : Env) (g : LGraph) : ∀ js : List Join, js.all joinOK = true → cjJoins env js g = .ok g
+  | [], _ => by simp only [cjJoins]
+  | .mk kd e on us :: r, h => by
+    simp only [List.all_cons, Bool.and_eq_true, joinOK] at h
+    cases e with
+    | derived _ _ _ => simp [tabElem] at h
+    | table parts alias ak =>
+      simp only [cjJoins, sqElem, cjElem, cjOptExpr_noSub env g on h.1.2, cjJoins_tab env g r h.2]
+
+theorem sqFrom_tab (env : Env) (multi : Bool) (g : LGraph) : ∀ frm : List FromExpr, frm.all feOK = true →
+    sqFrom env multi frm g = .ok g
+  | [], _ => by simp only [sqFrom]
+  | .mk base js :: r, h => by
+    simp only [List.all_cons, Bool.and_eq_true, feOK] at h
+    cases base with
+    | derived _ _ _ => simp [tabElem] at h
+    | table parts alias ak =>
+      simp only [sqFrom, sqElem, cjElem, cjJoins_tab env g js h.1.2, ite_self, sqFrom_tab env multi g r h.2]
+
+theorem sqWhere_noSub (env : Env) (g : LGraph) (wh : Option Expr) (h : noSubOpt wh = true) : sqWhere env wh g = .ok g := by
+  cases wh with
+  | none => simp only [sqWhere]
+  | some e => simp only [sqWhere]; exact sqDirect_true_noSub env none g e (by simpa [noSubOpt] using h)
+
+/-- the select extractor on one block without subqueries over base tables: cleanup and wildcard expansion on the initial
+    holder, nothing else -/
+theorem exQuery_tab (env : Env) (ctx : Ctx) (d : Bool) (its : List Item) (frm : List FromExpr) (wh : Option Expr)
+    (grp : List Expr) (hav : Option Expr) (hi : noSubI its = true) (hf : frm.all feOK = true) (hw : noSubOpt wh = true) :
+    exQuery env ctx (.select d its frm wh grp hav) = finishBranches env (initHolder ctx) [(its, frm)] := by
+  simp only [exQuery, sqItems_noSub env its _ hi, sqFrom_tab env _ _ frm hf, sqWhere_noSub env _ wh hw]
+
+theorem finishBranches_single (env : Env) (g : LGraph) (its : List Item) (frm : List FromExpr) :
+    finishBranches env g [(its, frm)] =
+      (match endOfQueryCleanup env.importDefault g (tablesOfFrom env g frm) (its.map (colSpecOf env)) [] env.revStar with
+        | .ok g' => .ok (expandWildcard env.prov g')
+        | .error e => .error e) := rfl
+
+/-- the holder the select extractor starts from is the target holder itself -/
+theorem initHolder_ctxOf_g0 (s nm : String) (al : Option String) :
+    initHolder (ctxOf (g0 ⟨.table s nm, al⟩)) = g0 ⟨.table s nm, al⟩ := by
+  show initHolder (ctxOf (g0 ⟨.table s nm, some nm⟩)) = g0 ⟨.table s nm, some nm⟩
+  have hW := WriteCols.WInv.base (g0 ⟨.table s nm, some nm⟩) (.table s nm) 0 (g0_nodes _) (g0_edges _)
+  have hwr : (g0 ⟨.table s nm, some nm⟩).tag (.ds (.table s nm)) .write = some true := by rw [g0_tag]; simp
+  have hrd : (g0 ⟨.table s nm, some nm⟩).tag (.ds (.table s nm)) .read ≠ some true := by rw [g0_tag]; simp
+  have hcte : cteObjs (g0 ⟨.table s nm, some nm⟩) = [] := by
+    apply cteObjs_nil
+    intro d; rw [g0_tag]; simp
+  have hwc : writeColObjs (g0 ⟨.table s nm, some nm⟩) = [] := hW.writeColObjs hwr hrd
+  have hwo : writeObjs (g0 ⟨.table s nm, some nm⟩) = [⟨.table s nm, some nm⟩] := by
+    unfold writeObjs objsOf
+    rw [hW.tagSet .write, hwr]
+    rfl
+  unfold ctxOf initHolder
+  rw [hcte, hwo, hwc]
+  rfl
+
+
+/-! ### assembling the statement -/
+
+/-- the source columns of a column spec as the fragment resolves them (duplicates by key dropped, as `to_source_columns` does) -/
+def SRCof (imp : String) (tabs : List DObj) (c : ColSpec) : List Column :=
+  c.srcs.foldl (fun acc r => pushCol acc (srcCol imp tabs r)) []
+
+theorem colSpecOf_srcs (env : Env) (e : Expr) (alias : Option String) (k : Bool) :
+    (colSpecOf env (.mk e alias k)).srcs = (refs e).map normRef := by
+  cases alias with
+  | some a => simp [colSpecOf, ColSpec.of, normRef]
+  | none =>
+    by_cases h : (refs e).isEmpty = true
+    · have : refs e = [] := List.isEmpty_iff.mp h
+      simp [colSpecOf, ColSpec.of, this]
+    · simp only [colSpecOf, h, Bool.not_false, if_true, Bool.false_eq_true, if_false, Bool.not_eq_true]
+      cases e <;> simp [ColSpec.of, normRef]
+
+theorem isSubq_of_isTable (d : DS) (h : d.isTable = true) : d.isSubq = false := by
+  cases d <;> simp_all [DS.isTable, DS.isSubq]
+
+theorem specAliasMap_isTable (tabs : List DObj) : ∀ e ∈ specAliasMap tabs, e.2.1.isTable = true := by
+  intro e he
+  rw [specAliasMap_split, List.mem_append] at he
+  rcases he with he | he
+  · unfold baseMap at he
+    simp only [List.mem_append, List.mem_filterMap, List.mem_map, List.mem_filter] at he
+    rcases he with (⟨o, ⟨_, ho⟩, h⟩ | ⟨o, ⟨_, ho⟩, h⟩) | ⟨o, ⟨_, ho⟩, h⟩
+    · split at h
+      · cases h; exact ho
+      · cases h
+    · rw [← h]; exact ho
+    · split at h
+      · split at h
+        · cases h; exact ho
+        · cases h
+      · cases h
+  · obtain ⟨o, _, h⟩ := List.mem_filterMap.mp he
+    unfold explEntry at h
+    split at h
+    · rename_i hd _
+      split at h
+      · cases h; simp only; rw [hd]; rfl
+      · cases h
+    · cases h
+
+theorem resolveQ_isTable (imp : String) (tabs : List DObj) (q : String) : (resolveQ imp tabs q).1.isTable = true := by
+  unfold resolveQ
+  cases h : amGet (specAliasMap tabs) q with
+  | none => rfl
+  | some v => exact specAliasMap_isTable tabs _ (amGet_mem _ _ _ h)
+
+theorem srcCol_colOK (imp : String) (tabs : List DObj) (hT : ∀ o ∈ tabs, isTabRef o = true) (r : String × Option String) :
+    colOK (srcCol imp tabs r) := by
+  intro p hp
+  obtain ⟨rn, rq⟩ := r
+  cases rq with
+  | some q =>
+    simp only [srcCol, Column.mk1, List.mem_singleton] at hp
+    rw [hp]; exact isSubq_of_isTable _ (resolveQ_isTable imp tabs q)
+  | none =>
+    cases tabs with
+    | nil => simp [srcCol, Column.mk1] at hp
+    | cons t r =>
+      simp only [srcCol, Column.mk1, List.head?_cons, Option.map_some, List.mem_singleton] at hp
+      rw [hp]
+      have := hT t (by simp)
+      simp only [isTabRef, Bool.and_eq_true] at this
+      exact isSubq_of_isTable _ this.1
+
+theorem srcCol_parent_ne (imp : String) (tabs : List DObj) (T : DS) (hself : ∀ o ∈ tabs, o.d ≠ T) (r : String × Option String)
+    (hr : match r.2 with | none => True | some q => (resolveQ imp tabs q).1 ≠ T) :
+    ∀ sp, (srcCol imp tabs r).parent? = some sp → sp.1 ≠ T := by
+  intro sp hsp
+  obtain ⟨rn, rq⟩ := r
+  cases rq with
+  | some q =>
+    simp only [srcCol, Column.mk1, Column.parent?, Option.some.injEq] at hsp
+    rw [← hsp]; exact hr
+  | none =>
+    cases tabs with
+    | nil => simp [srcCol, Column.mk1, Column.parent?] at hsp
+    | cons t r =>
+      simp only [srcCol, Column.mk1, List.head?_cons, Option.map_some, Column.parent?, Option.some.injEq] at hsp
+      rw [← hsp]; exact hself t (by simp)
+
+theorem mem_groupPairs (SRC : ColSpec → List Column) (tp : DS × String) (cols : List ColSpec) (x : Node × Node) :
+    x ∈ groupPairs SRC tp cols ↔ ∃ c ∈ cols, ∃ k ∈ (SRC c).map (·.key), x = (k, (Column.mk1 c.raw (some tp)).key) := by
+  unfold groupPairs
+  simp only [List.mem_flatMap, List.mem_map]
+  constructor
+  · rintro ⟨c, hc, y, hy, rfl⟩; exact ⟨c, hc, y.key, ⟨y, hy, rfl⟩, rfl⟩
+  · rintro ⟨c, hc, k, ⟨y, hy, rfl⟩, rfl⟩; exact ⟨c, hc, y, hy, rfl⟩
+
+/-- the pairs wired by the cleanup are the pairs of the specification -/
+theorem groupPairs_spec (env : Env) (tgt : List String) (its : List Item) (frm : List FromExpr) (x : Node × Node) :
+    x ∈ groupPairs (SRCof env.importDefault (fromTabs env frm))
+        ((mkTable env tgt none).d, (mkTable env tgt none).printed) (its.map (colSpecOf env)) ↔
+      x ∈ specPairs env tgt its frm := by
+  rw [mem_groupPairs]
+  unfold specPairs
+  rw [List.mem_flatMap]
+  have key : ∀ (e : Expr) (a : Option String) (kw : Bool) (k : Node),
+      k ∈ (SRCof env.importDefault (fromTabs env frm) (colSpecOf env (.mk e a kw))).map (·.key) ↔
+        ∃ r ∈ refs e, k = (srcCol env.importDefault (fromTabs env frm) (normRef r)).key := by
+    intro e a kw k
+    unfold SRCof
+    rw [mem_keys_pushFold, colSpecOf_srcs]
+    simp only [List.map_nil, List.not_mem_nil, false_or, List.map_map, List.mem_map, Function.comp]
+    constructor
+    · rintro ⟨r, hr, rfl⟩; exact ⟨r, hr, rfl⟩
+    · rintro ⟨r, hr, rfl⟩; exact ⟨r, hr, rfl⟩
+  constructor
+  · rintro ⟨c, hc, k, hk, rfl⟩
+    obtain ⟨it, hit, rfl⟩ := List.mem_map.mp hc
+    refine ⟨it, hit, ?_⟩
+    obtain ⟨e, a, kw⟩ := it
+    obtain ⟨r, hr, rfl⟩ := (key e a kw k).mp hk
+    simp only [itemPairs, List.mem_map]
+    exact ⟨r, hr, rfl⟩
+  · rintro ⟨it, hit, hx⟩
+    obtain ⟨e, a, kw⟩ := it
+    simp only [itemPairs, List.mem_map] at hx
+    obtain ⟨r, hr, rfl⟩ := hx
+    exact ⟨colSpecOf env (.mk e a kw), List.mem_map.mpr ⟨_, hit, rfl⟩, _, (key e a kw _).mpr ⟨r, hr, rfl⟩, rfl⟩
+
+theorem noSubI_of_items (imp : String) (tabs : List DObj) (T : DS) : ∀ its : List Item, its.all (itemOK imp tabs T) = true →
+    noSubI its = true
+  | [], _ => rfl
+  | .mk e a k :: r, h => by
+    simp only [List.all_cons, Bool.and_eq_true, itemOK] at h
+    simp only [noSubI, Bool.and_eq_true]
+    exact ⟨h.1.1, noSubI_of_items imp tabs T r h.2⟩
+
+theorem writeTargetHolder_none (env : Env) (isInsert : Bool) (tgt : List String) (hp : env.prov.truthy = false) :
+    writeTargetHolder env isInsert tgt none = g0 (mkTable env tgt none) := by
+  unfold writeTargetHolder g0
+  simp [hp]
+
+/-- **the holder of the statement**: the target holder composed with a holder `g2` that is the reads of the FROM clause plus
+    exactly the specified column pairs -/
+theorem exWriteQuery_wired (env : Env) (isInsert : Bool) (tgt : List String) (d : Bool) (its : List Item)
+    (frm : List FromExpr) (wh : Option Expr) (grp : List Expr) (hav : Option Expr) (hp : env.prov.truthy = false)
+    (hfrag : fragSelect env tgt (.select d its frm wh grp hav) = true) :
+    ∃ g2, exWriteQuery env isInsert tgt none (.select d its frm wh grp hav) = .ok ((g0 (mkTable env tgt none)).compose g2) ∧
+      ReadBase ((fromTabs env frm).foldl addReadO (g0 (mkTable env tgt none))) (fromTabs env frm) (mkTable env tgt none).d ∧
+      Wired ((fromTabs env frm).foldl addReadO (g0 (mkTable env tgt none))) g2 (specPairs env tgt its frm) := by
+  simp only [fragSelect, Bool.and_eq_true, Bool.not_eq_true', List.any_eq_false, beq_iff_eq] at hfrag
+  obtain ⟨⟨⟨⟨hf, hw⟩, hself⟩, hU⟩, hits⟩ := hfrag
+  have hself' : ∀ o ∈ fromTabs env frm, o.d ≠ (mkTable env tgt none).d := fun o ho => by simpa using hself o ho
+  have hTR := fromTabs_isTabRef env frm
+  -- the target as a table
+  obtain ⟨s, nm, al, hmk⟩ : ∃ s nm al, mkTable env tgt none = ⟨.table s nm, al⟩ := ⟨_, _, _, rfl⟩
+  have hprinted : (mkTable env tgt none).printed = s ++ "." ++ nm := by rw [hmk]; rfl
+  have hd : (mkTable env tgt none).d = .table s nm := by rw [hmk]
+  have hb := readBase (mkTable env tgt none) (by rw [hd]; rfl) (fromTabs env frm) hTR hself'
+  rw [hd] at hb hself'
+  -- the cleanup
+  have hcte : cteObjs (g0 (mkTable env tgt none)) = [] := by
+    apply cteObjs_nil
+    intro d'; rw [g0_tag]; simp
+  have hits' : ∀ it ∈ its, itemOK env.importDefault (fromTabs env frm) (.table s nm) it = true := by
+    intro it hit
+    have := List.all_eq_true.mp hits it hit
+    rwa [hd] at this
+  obtain ⟨g2, hg2, hw2⟩ := endOfQueryCleanup_wired env.importDefault (g0 (mkTable env tgt none)) s nm (fromTabs env frm)
+    (its.map (colSpecOf env)) env.revStar (SRCof env.importDefault (fromTabs env frm)) hb hself'
+    (by
+      intro c hc g' hfr
+      obtain ⟨it, hit, rfl⟩ := List.mem_map.mp hc
+      apply toSourceColumns_eq _ _ _ _ _ hTR (aliasOK_frame hfr hb.alias) hU
+      intro r hr hnone
+      obtain ⟨e, a, kw⟩ := it
+      rw [colSpecOf_srcs] at hr
+      obtain ⟨r0, hr0, rfl⟩ := List.mem_map.mp hr
+      have := hits' _ hit
+      simp only [itemOK, Bool.and_eq_true, List.all_eq_true] at this
+      have := this.2 r0 hr0
+      unfold refOK at this
+      rw [hnone] at this
+      simpa using this)
+    (by
+      intro c hc x hx
+      obtain ⟨it, hit, rfl⟩ := List.mem_map.mp hc
+      unfold SRCof at hx
+      rcases mem_pushFold _ _ _ _ hx with h | ⟨r, hr, rfl⟩
+      · cases h
+      · refine ⟨srcCol_colOK _ _ hTR r, srcCol_parent_ne _ _ _ hself' r ?_⟩
+        obtain ⟨e, a, kw⟩ := it
+        rw [colSpecOf_srcs] at hr
+        obtain ⟨r0, hr0, rfl⟩ := List.mem_map.mp hr
+        have := hits' _ hit
+        simp only [itemOK, Bool.and_eq_true, List.all_eq_true] at this
+        have := this.2 r0 hr0
+        unfold refOK at this
+        cases hq : (normRef r0).2 with
+        | none => trivial
+        | some q => rw [hq] at this; simpa using this)
+  refine ⟨g2, ?_, by rw [hd]; exact hb, ?_⟩
+  · rw [exWriteQuery_eq]
+    unfold wq0
+    rw [writeTargetHolder_none env isInsert tgt hp,
+      exQuery_tab env _ d its frm wh grp hav (noSubI_of_items _ _ _ its hits) hf hw]
+    have hinit : initHolder (ctxOf (g0 (mkTable env tgt none))) = g0 (mkTable env tgt none) := by
+      rw [hmk]; exact initHolder_ctxOf_g0 s nm al
+    rw [hinit, finishBranches_single, tablesOfFrom_tab env _ hcte frm hf, hg2]
+    simp only
+    rw [expandWildcard_id env.prov g2 hp hw2.pay]
+  · apply hw2.congr
+    intro x
+    have := groupPairs_spec env tgt its frm x
+    rw [hd, hprinted] at this
+    exact this
+
+
 end SqlLineage.ColumnsExact
